@@ -2,6 +2,7 @@ package main
 
 import (
 	"fmt"
+	"os"
 	"go/constant"
 	"go/token"
 	"go/types"
@@ -96,6 +97,15 @@ func (fr *Frame) exec(ins ssa.Instruction) {
 			return
 		}
 		b := x.Block()
+		if in.forkMode {
+			if in.decide(c) {
+				fr.edge(b, 0, g)
+			} else {
+				fr.edge(b, 1, g)
+			}
+			return
+		}
+		c = restrictTerm(c, g)
 		fr.edge(b, 0, mkAnd(g, c))
 		fr.edge(b, 1, mkAnd(g, mkNot(c)))
 	case *ssa.Index:
@@ -142,8 +152,8 @@ func (fr *Frame) exec(ins ssa.Instruction) {
 	case *ssa.Panic:
 		msg := "explicit panic"
 		if iv, ok := fr.val(x.X).(*IfaceVal); ok && len(iv.Alts) == 1 {
-			if sv, ok := iv.Alts[0].V.(*StrVal); ok && len(sv.Alts) == 1 {
-				msg = "panic: " + sv.Alts[0].S
+			if sv, ok := iv.Alts[0].V.(*StrVal); ok && sv.Code.IsConst() {
+				msg = "panic: " + strTab[sv.Code.val]
 			}
 		}
 		in.abort(g, "panic", in.curSite, msg)
@@ -215,7 +225,7 @@ func (fr *Frame) unop(x *ssa.UnOp) Value {
 			in.unsupported(g, "load through opaque pointer")
 			return in.opaqueOf(x.Type(), "load through opaque")
 		}
-		return in.loadPtr(g, p, x.Type())
+		return in.restrictVal(in.loadPtr(g, p, x.Type()), g)
 	case token.NOT:
 		t, ok := v.(*Term)
 		if !ok {
@@ -243,7 +253,7 @@ func (fr *Frame) unop(x *ssa.UnOp) Value {
 
 func (in *Interp) opaqueOf(t types.Type, why string) Value {
 	if isString(t) {
-		return &StrVal{Alts: []StrAlt{{G: tTrue, S: "\x00opaque:" + why, Opq: true}}}
+		return opaqueStr(why)
 	}
 	return &Opaque{why}
 }
@@ -369,8 +379,9 @@ func (in *Interp) strBinop(g *Term, op token.Token, a, b *StrVal) Value {
 	switch op {
 	case token.ADD:
 		var alts []StrAlt
-		for _, p := range a.Alts {
-			for _, q := range b.Alts {
+		bAlts := b.Alts()
+		for _, p := range a.Alts() {
+			for _, q := range bAlts {
 				gg := mkAnd(p.G, q.G)
 				if gg.IsFalse() {
 					continue
@@ -385,8 +396,9 @@ func (in *Interp) strBinop(g *Term, op token.Token, a, b *StrVal) Value {
 		return normStr(alts)
 	case token.LSS, token.LEQ, token.GTR, token.GEQ:
 		var gs []*Term
-		for _, p := range a.Alts {
-			for _, q := range b.Alts {
+		bAlts := b.Alts()
+		for _, p := range a.Alts() {
+			for _, q := range bAlts {
 				if p.Opq || q.Opq {
 					in.unsupported(mkAnd(g, p.G, q.G), "ordering of opaque string")
 					continue
@@ -455,9 +467,9 @@ func (in *Interp) convert(g *Term, v Value, from, to types.Type) Value {
 	if isString(from) {
 		if st, ok := to.Underlying().(*types.Slice); ok {
 			sv := v.(*StrVal)
-			if len(sv.Alts) == 1 && !sv.Alts[0].Opq {
+			if sv.Code.IsConst() && !strOpq[sv.Code.val] {
 				if w, _, ok := bvWidth(st.Elem()); ok && w == 8 {
-					s := sv.Alts[0].S
+					s := strTab[sv.Code.val]
 					arr := in.newArray(st.Elem(), len(s))
 					for i := 0; i < len(s); i++ {
 						arr.kids[i].val = mkConst(8, uint64(s[i]))
@@ -604,7 +616,7 @@ func (fr *Frame) index(x *ssa.Index) Value {
 func (in *Interp) strIndex(g *Term, s *StrVal, idx *Term) Value {
 	var r *Term = mkConst(8, 0)
 	inb := tFalse
-	for _, a := range s.Alts {
+	for _, a := range s.Alts() {
 		if a.Opq {
 			in.unsupported(mkAnd(g, a.G), "index of opaque string")
 			continue
@@ -710,7 +722,7 @@ func (fr *Frame) sliceOp(x *ssa.Slice) Value {
 	switch base := fr.val(x.X).(type) {
 	case *StrVal:
 		var alts []StrAlt
-		for _, a := range base.Alts {
+		for _, a := range base.Alts() {
 			if a.Opq {
 				alts = append(alts, a)
 				continue
@@ -839,7 +851,7 @@ func (in *Interp) appendSlice(g *Term, s, add *SliceVal, et types.Type) *SliceVa
 		return s
 	}
 	// read the added elements first (they may alias the destination)
-	maxAdd := int(min(addLen.hi, maxArray))
+	maxAdd := add.maxLen()
 	addVals := make([]Value, maxAdd)
 	for j := 0; j < maxAdd; j++ {
 		addVals[j] = in.sliceLoad(add, mkConst(64, uint64(j)), et)
@@ -894,12 +906,22 @@ func (in *Interp) appendSlice(g *Term, s, add *SliceVal, et types.Type) *SliceVa
 			} else {
 				// symbolic: tight capacity (modelling choice, see DESIGN 2.3)
 				hi := newLen.hi
+				if sa.a != nil {
+					if b := uint64(int(min(sa.Len.hi, uint64(len(sa.a.Arr.kids)-sa.a.Off))) + maxAdd); b < hi {
+						hi = b
+					}
+				} else if uint64(maxAdd) < hi {
+					hi = uint64(maxAdd)
+				}
 				if hi > maxArray {
-					in.unsupported(mkAnd(g, gOut), "append with unbounded length")
+					in.unsupported(mkAnd(g, gOut), "append with unbounded length: "+newLen.str(6))
 					hi = 0
 				}
 				size = int(hi)
 				newCap = newLen
+			}
+			if size > 256 {
+				fmt.Fprintf(os.Stderr, "big append alloc size=%d maxAdd=%d newLen=%s at %s\n", size, maxAdd, newLen.str(3), in.curSite)
 			}
 			arr := in.newArray(et, size)
 			// copy old
@@ -992,9 +1014,10 @@ func keyAlts(k Value) []struct {
 	}
 	switch x := k.(type) {
 	case *StrVal:
-		out := make([]ka, 0, len(x.Alts))
-		for _, a := range x.Alts {
-			out = append(out, ka{a.G, &StrVal{Alts: []StrAlt{{tTrue, a.S, a.Opq}}}})
+		xa := x.Alts()
+		out := make([]ka, 0, len(xa))
+		for _, a := range xa {
+			out = append(out, ka{a.G, normStr([]StrAlt{{tTrue, a.S, a.Opq}})})
 		}
 		return out
 	case *PtrVal:
@@ -1191,8 +1214,8 @@ func (fr *Frame) next(x *ssa.Next) Value {
 		it.pos = mkIte(g, newPos, it.pos)
 		return &TupleVal{Elems: []Value{ok, key, val}}
 	case *StrIter:
-		if len(it.s.Alts) == 1 && !it.s.Alts[0].Opq && it.pos.IsConst() {
-			s := it.s.Alts[0].S
+		if it.s.Code.IsConst() && !strOpq[it.s.Code.val] && it.pos.IsConst() {
+			s := strTab[it.s.Code.val]
 			p := int(it.pos.val)
 			if p >= len(s) {
 				return &TupleVal{Elems: []Value{tFalse, mkConst(64, 0), mkConst(32, 0)}}
